@@ -166,6 +166,7 @@ def run_batch(spec):
         if r is None:
             continue
         viols, applied, src0, src1 = r
+        common.release_tealer_caches()
         out["cases"] += 1
         if set(applied) & {"int_spelling", "move_subroutines", "named_constants", "radix", "padding"}:
             out["nontrivial"].append(common.h([src0, sorted(set(applied))]))
